@@ -715,6 +715,9 @@ def c14(rec):
     if rec.get("mod") != "storage":
         return []
     k, v = opk(rec)
+    if k == "setParams":
+        # the quorum is "the configured minimum": what governance set by key must be what the module reads
+        return gov_params(rec, "C14", ["attestMinToPass", "attestFormSize"])
     out = []
     pre, post = rec["pre"], rec["post"]
     if k in ("attest", "report"):
